@@ -184,8 +184,44 @@ fn exec_c14(sc: &Scenario, keep_log: bool) -> Outcome {
     out
 }
 
+/// The store as the server builds it (MemcacheStoreBuilder::from_config, the path from the
+/// command line to the eviction policy) under a large configured limit: a handful of tiny
+/// items is nowhere near it, so none may be lost. The limit is drawn from the run's seed.
+fn builder_probe(sc: &Scenario) -> Vec<Violation> {
+    use memcrs::memcache::builder::{MemcacheStoreBuilder, MemcacheStoreConfig};
+    use memcrs::memcache::eviction_policy::EvictionPolicy;
+    let mut rng = Rng::sub(sc.knobs.rng_seed, "builder-probe");
+    let limit = *rng.pick(&[1u64 << 20, 1 << 31, (1 << 32) - 1, 1 << 32, (1 << 32) + 4096, 5 << 30, 1 << 33, 1 << 40, 1 << 63, u64::MAX]);
+    let n = rng.range(2, 17) as usize;
+    let r = crate::stack::guarded(|| {
+        simseam::knobs::set_hash_seed(sc.knobs.hash_seed);
+        simseam::knobs::set_shard_amount(sc.knobs.shards);
+        simseam::rng::seed(sc.knobs.rng_seed);
+        let timer = std::sync::Arc::new(crate::stack::SimTimer::new(1));
+        let cache = MemcacheStoreBuilder::from_config(MemcacheStoreConfig::new(limit, EvictionPolicy::Random), timer);
+        let mut lost = Vec::new();
+        for i in 0..n {
+            let k = bytes::Bytes::from(format!("bp{}", i));
+            let _ = cache.set(k, memcrs::cache::cache::Record::new(bytes::Bytes::from(vec![b'v'; 8]), 0, 0, 0));
+        }
+        for i in 0..n {
+            let k = bytes::Bytes::from(format!("bp{}", i));
+            if cache.get(&k).is_err() {
+                lost.push(i);
+            }
+        }
+        lost
+    });
+    match r {
+        Some(lost) if !lost.is_empty() => vec![Violation::new("C15", "evicted-under-configured-limit", format!("store built by MemcacheStoreBuilder::from_config with random eviction and memory limit {}: after {} stores of 32-byte records, items {:?} are gone", limit, n, lost))],
+        _ => Vec::new(),
+    }
+}
+
 fn exec_c15(sc: &Scenario, keep_log: bool) -> Outcome {
-    let (viols, mut out) = run_c15(sc, keep_log);
+    let (mut viols, mut out) = run_c15(sc, keep_log);
+    viols.extend(builder_probe(sc));
+    out.count("production_builder_probes", 1);
     match std::env::var("VERIF_CLAIM_SIG") {
         Ok(sig) => out.absorb(viols, &|v| v.signature() == sig),
         Err(_) => out.absorb(viols, &|v| v.prop == "C15"),
